@@ -296,8 +296,10 @@ func Prelude(used map[string]bool) []pt.Stmt {
 		}
 	}
 	// any-typed variables: two separately built equal arrays, a num, a string, a map; an []any variable
-	anyVals := map[string]pt.Expr{"xn": pt.N(1), "xa": pt.A(pt.N(1), pt.N(2)), "xb": pt.A(pt.N(1), pt.N(2)), "xs": pt.S("a"), "xm": pt.M("k", pt.A(pt.N(1))), "xq": pt.M("k", pt.A(pt.N(1)))}
-	for _, k := range []string{"xa", "xb", "xm", "xn", "xq", "xs"} {
+	anyVals := map[string]pt.Expr{"xn": pt.N(1), "xa": pt.A(pt.N(1), pt.N(2)), "xb": pt.A(pt.N(1), pt.N(2)), "xs": pt.S("a"), "xm": pt.M("k", pt.A(pt.N(1))), "xq": pt.M("k", pt.A(pt.N(1))),
+		// same kind, same length, other element type: equality looks at the elements, not only at the kind
+		"xt": pt.A(pt.S("1"), pt.S("2")), "xr": pt.M("k", pt.A(pt.S("1")))}
+	for _, k := range []string{"xa", "xb", "xm", "xn", "xq", "xr", "xs", "xt"} {
 		if used[k] {
 			out = append(out, pt.TypedDecl{Name: k, T: pt.TAny}, pt.Assign{Target: pt.V(k), X: anyVals[k]})
 		}
